@@ -161,6 +161,8 @@ def run_case(ns, ctx, case):
           host_candidates = [m for m in model if model[m].kind in ("box", "seq")]
           host = host_candidates[int(rng.integers(len(host_candidates)))]
           name = ["a", "b", "c", "w", "layer"][int(rng.integers(5))]
+          if model[host].reg and rng.random() < 0.25:
+              name = list(model[host].reg)[int(rng.integers(len(model[host].reg)))]       # re-use an existing name (also positional Sequential keys)
           via = "setattr" if rng.random() < 0.7 else "register"
           if r < 0.30:
               pid = new_param() if (rng.random() < 0.75 or not params) else int(rng.integers(len(params)))
